@@ -40,7 +40,7 @@ FAMILIES = ["vdi", "qcow2", "qcow2-snap", "vhdx", "vmdk", "hdd"]
 
 
 def budget(tier):
-    return 1500 if tier == "quick" else 40000
+    return 6000 if tier == "quick" else 40000
 
 
 def max_depth(tier):
